@@ -528,7 +528,8 @@ func ruleDateZone(c *Ctx, r *Rep, tier string) {
 	}
 	n := 0
 	for _, fn := range c.FuncsIn("sam") {
-		if fn.Signature.Recv() == nil || !strings.Contains(fn.Signature.Recv().Type().String(), "ReadGroup") {
+		// ReadGroup's methods, and the helpers they format the date with
+		if !(fn.Signature.Recv() != nil && strings.Contains(fn.Signature.Recv().Type().String(), "ReadGroup")) && !calledFromReadGroup(c, fn) {
 			continue
 		}
 		fn := fn
@@ -581,6 +582,8 @@ func ruleDateZone(c *Ctx, r *Rep, tier string) {
 					why = fmt.Sprintf("layout %q leaves the fraction out when it is zero, and the parser has no non-local entry for %q", layout, plain)
 				case tableHasFrac && !fracRE.MatchString(basic):
 					why = fmt.Sprintf("the parser accepts dates with fractional seconds, and the date is printed with layout %q, which has none: a read group date with a fraction (2014-08-13T16:02:01.5+00:00) loses it when the header is written, and ReadGroup.Time() differs after a round trip", layout)
+				case !strings.Contains(layout, "07:00:00") && !strings.Contains(layout, "070000") && !wholeMinuteOffset(fn, call.Call.Args[0]):
+					why = fmt.Sprintf("layout %q writes the zone offset to the minute, the clock fields are computed with all of it: a date in a zone whose offset has seconds (the local mean time entries of the tz database, +00:19:32) is written as another instant – the value formatted is not shown to be in UTC or in a zone with a whole-minute offset", layout)
 				}
 			}
 			r.Check(why == "", rule, key, c.Pos(call.Pos()), fmt.Sprintf("layout %q carries the zone and is accepted as non-local", layout), why)
@@ -588,7 +591,7 @@ func ruleDateZone(c *Ctx, r *Rep, tier string) {
 	}
 	if n == 0 {
 		r.Instance(rule, 1)
-		r.Fail(rule, "sam.ReadGroup#date-formats", "sam/read_group.go", "no time.Format call found in ReadGroup's methods")
+		r.Fail(rule, "sam.ReadGroup#date-formats", "sam/read_group.go", "no time.Format call found in ReadGroup's methods or the functions they call")
 	}
 }
 
@@ -1028,7 +1031,20 @@ func ruleFreshLinks(c *Ctx, r *Rep, tier string) {
 				r.Check(ok && hdr, rule, key, c.Pos(st.Pos()), "a slice made in the same iteration of the source loop", "the link slice is made outside the loop over the sources")
 			case *ssa.UnOp:
 				f, _ := loadedField(v)
-				r.Check(f == refsF, rule, key, c.Pos(st.Pos()), "the merged header's own reference list (source 0)", "unexpected link list "+symKey(v))
+				if f == refsF {
+					r.Fail(rule, key, c.Pos(st.Pos()), "the link list of a source is the merged header's own reference list: RemoveReference edits that list in place, and the source's remaining references are then linked to references of another name")
+				} else {
+					r.Fail(rule, key, c.Pos(st.Pos()), "unexpected link list "+symKey(v))
+				}
+			case *ssa.Call:
+				// append([]*Reference(nil), h.refs...): a copy
+				bi, isB := v.Call.Value.(*ssa.Builtin)
+				okc := isB && bi.Name() == "append" && len(v.Call.Args) == 2 && isNilConst(v.Call.Args[0])
+				if okc {
+					f, _ := loadedField(v.Call.Args[1])
+					okc = f == refsF
+				}
+				r.Check(okc, rule, key, c.Pos(st.Pos()), "a copy of the merged header's reference list (source 0)", "the link list stored for a source is "+symKey(st.Val)+", neither made for this source nor a copy of the merged list")
 			default:
 				r.Fail(rule, key, c.Pos(st.Pos()), fmt.Sprintf("the link list stored for a source is %s, not a slice made for this source: sources share one backing array and a later source overwrites the links of an earlier one", symKey(st.Val)))
 			}
@@ -1100,6 +1116,8 @@ func init() {
 			{Name: "COUPLED-HEADER", What: "every insertion, adoption, replacement, removal, renumbering and renaming of a header item keeps owner, id = index and the name table in step; id/owner are assigned only in reviewed functions; Remove* guards test the container they splice", Floor: 60, Run: ruleCoupledHeader},
 			{Name: "FRESH-LINKS", What: "MergeHeaders: each source gets its own link slice; each link is owned by the merged header", Floor: 3, Run: ruleFreshLinks},
 			{Name: "MERGE-KEEPS", What: "AddReference's merge of a compatible duplicate overwrites a field only with the duplicate's non-empty value; the @CO parser keeps the whole remainder of the line", Floor: 5, Run: ruleMergeKeeps},
+			{Name: "SCAN-LIMIT", What: "no parser of package sam reads lines through a bufio.Scanner with the default 64 KiB token limit: a header line (@PG CL, @CO) may be longer (added after eleventh-round seed C07-l; none today)", Floor: 0, Run: ruleScanLimit([]string{"sam"}),
+				Canary: func(cc *Ctx, r *Rep) { ruleScanLimit([]string{"scanc"})(cc, r, "") }, WantFail: []string{"scanc.Lines#scanner~1"}, WantPassMin: 1},
 			{Name: "DATE-ZONE", What: "every layout a read group's date is printed with carries a zone and is one the parser accepts as non-local (added after a blind second seed round)", Floor: 1, Run: ruleDateZone},
 			{Name: "WIRE-BAMHDR", What: "binary header: EncodeBinary's token sequence = DecodeBinary's", Floor: 6,
 				Run: ruleWirePair("WIRE-BAMHDR", "sam.(*Header).EncodeBinary#DecodeBinary", "sam", "(*Header).EncodeBinary", "sam", "(*Header).DecodeBinary", nil)},
@@ -1107,4 +1125,86 @@ func init() {
 		Explanation: "Text round trip rests on the writer and the line parser agreeing, tag by tag, on the struct field a tag stands for, and on the parser storing the text as it stands; the identity invariants (id = index, unique names) rest on every function that changes one of refs/rgs/progs, an item's id/owner/name or a name table changing the others with it. TAG-VIEWS extracts the tag→field map of five views (String, line parser, Get, Set, Tags) per line kind and compares them; COUPLED-HEADER states, per container operation found in package sam, the companion assignments that must accompany it and checks they are there (and that no other function assigns id/owner); FRESH-LINKS covers the mapping MergeHeaders returns.",
 		NotDecided:  "value formats (dates and zones, M5 hex, UR normalisation), which optional tags win in a merge (equalRefs leniency), aliasing of otherTags between a header and its clone.",
 	})
+}
+
+// calledFromReadGroup: fn is a function of package sam called (statically) from a
+// method of ReadGroup.
+func calledFromReadGroup(c *Ctx, fn *ssa.Function) bool {
+	found := false
+	for _, g := range c.FuncsIn("sam") {
+		if g.Signature.Recv() == nil || !strings.Contains(g.Signature.Recv().Type().String(), "ReadGroup") {
+			continue
+		}
+		allInstrs(g, func(ins ssa.Instruction) {
+			if call, ok := ins.(*ssa.Call); ok && staticCallee(&call.Call) == fn {
+				found = true
+			}
+		})
+	}
+	return found
+}
+
+// wholeMinuteOffset: the time value t handed to Format is, on every path, the
+// result of UTC() or reached over the zero edge of (offset of t's zone) % 60.
+func wholeMinuteOffset(fn *ssa.Function, t ssa.Value) bool {
+	isUTC := func(v ssa.Value) bool {
+		call, ok := v.(*ssa.Call)
+		return ok && calleeFullName(&call.Call) == "(time.Time).UTC"
+	}
+	zeroEdge := func(raw ssa.Value, from, to *ssa.BasicBlock) bool {
+		for _, b := range fn.Blocks {
+			ifi := ifOf(b)
+			if ifi == nil {
+				continue
+			}
+			bo, ok := ifi.Cond.(*ssa.BinOp)
+			if !ok || (bo.Op != token.EQL && bo.Op != token.NEQ) {
+				continue
+			}
+			rem, ok := bo.X.(*ssa.BinOp)
+			if !ok || rem.Op != token.REM {
+				continue
+			}
+			if k, ok := constInt(rem.Y); !ok || k != 60 {
+				continue
+			}
+			if k, ok := constInt(bo.Y); !ok || k != 0 {
+				continue
+			}
+			ex, ok := rem.X.(*ssa.Extract)
+			if !ok || ex.Index != 1 {
+				continue
+			}
+			zc, ok := ex.Tuple.(*ssa.Call)
+			if !ok || calleeFullName(&zc.Call) != "(time.Time).Zone" || len(zc.Call.Args) == 0 || zc.Call.Args[0] != raw {
+				continue
+			}
+			zero := 0
+			if bo.Op == token.NEQ {
+				zero = 1
+			}
+			if dominatedByEdge(fn, b, zero, from) || (from == b && b.Succs[zero] == to && b.Succs[1-zero] != to) {
+				return true
+			}
+		}
+		return false
+	}
+	if isUTC(t) {
+		return true
+	}
+	if p, ok := t.(*ssa.Phi); ok {
+		for i, e := range p.Edges {
+			if isUTC(e) {
+				continue
+			}
+			if !zeroEdge(e, p.Block().Preds[i], p.Block()) {
+				return false
+			}
+		}
+		return true
+	}
+	if ins, ok := t.(ssa.Instruction); ok {
+		return zeroEdge(t, ins.Block(), nil)
+	}
+	return false
 }
